@@ -146,7 +146,16 @@ func (s *c12) Build(w *World) {
 			id := ReqID(fmt.Sprintf("hostile-%d", i))
 			root := s.dag.Root.Cid
 			var sel datamodel.Node = AllSelector(3)
-			hk := t.Draw(7)
+			hk := t.Draw(10)
+			var hexts []graphsync.ExtensionData
+			if hk >= 7 {
+				// a complete, valid new request whose well-known extensions carry values of the wrong kind
+				names := []graphsync.ExtensionName{graphsync.ExtensionDeDupByKey, graphsync.ExtensionDoNotSendCIDs, graphsync.ExtensionsDoNotSendFirstBlocks, graphsync.ExtensionName("sim/other")}
+				vals := []datamodel.Node{nil, datamodel.Null, basicnode.NewInt(-3), basicnode.NewString("x"), basicnode.NewBytes([]byte{1, 2}), roundTripNode(mapNode(map[string]datamodel.Node{"a": basicnode.NewInt(1)})), roundTripNode(listNode(basicnode.NewString("not a link"), basicnode.NewInt(4)))}
+				for k := 0; k < 1+t.Draw(3); k++ {
+					hexts = append(hexts, graphsync.ExtensionData{Name: names[t.Draw(len(names))], Data: vals[t.Draw(len(vals))]})
+				}
+			}
 			switch hk {
 			case 0:
 				sel = nil
@@ -163,7 +172,7 @@ func (s *c12) Build(w *World) {
 			case 6:
 				sel = roundTripNode(mapNode(map[string]datamodel.Node{"R": mapNode(map[string]datamodel.Node{"l": basicnode.NewString("x")})}))
 			}
-			hm := gsmsg.NewMessage(map[graphsync.RequestID]gsmsg.GraphSyncRequest{id: gsmsg.NewRequest(id, root, sel, graphsync.Priority(1))}, nil, nil)
+			hm := gsmsg.NewMessage(map[graphsync.RequestID]gsmsg.GraphSyncRequest{id: gsmsg.NewRequest(id, root, sel, graphsync.Priority(1), hexts...)}, nil, nil)
 			var hb bytes.Buffer
 			if err := handler.ToNet(s.m.ID, hm, &hb); err == nil {
 				mut, kind = hb.Bytes(), fmt.Sprintf("hostile-request-%d", hk)
@@ -290,4 +299,15 @@ func mapNode(m map[string]datamodel.Node) datamodel.Node {
 func frameComplete(raw []byte) bool {
 	l, n := binary.Uvarint(raw)
 	return n > 0 && l > 0 && uint64(len(raw)-n) >= l
+}
+
+// listNode builds a basic list node.
+func listNode(items ...datamodel.Node) datamodel.Node {
+	nb := basicnode.Prototype.List.NewBuilder()
+	la, _ := nb.BeginList(int64(len(items)))
+	for _, it := range items {
+		_ = la.AssembleValue().AssignNode(it)
+	}
+	_ = la.Finish()
+	return nb.Build()
 }
